@@ -65,6 +65,7 @@ type DEv struct {
 	Seterr    int    `json:"seterr"`
 	Unchanged int    `json:"unchanged"`
 	Mapping   string `json:"mapping"`
+	Late      []int  `json:"late"` // the late-bound slot: has, runtime's has, in marshaled bytes (-1 unknown), visited by Range, value id Get returned (-1: no Get), Get agrees with the runtime's
 	// json
 	Dir          string `json:"dir"`
 	Nilmsg       int    `json:"nilmsg"`
@@ -96,7 +97,7 @@ func (e *DEv) norm() {
 	if e.Op == nil {
 		e.Op = ""
 	}
-	for _, p := range []*[]int{&e.Has, &e.Rthas, &e.Getv, &e.Getsame, &e.Inb, &e.Rng} {
+	for _, p := range []*[]int{&e.Has, &e.Rthas, &e.Getv, &e.Getsame, &e.Inb, &e.Rng, &e.Late} {
 		if *p == nil {
 			*p = []int{}
 		}
@@ -697,11 +698,12 @@ func (d *Driver) msgTypeConc(sf, key string, mk func() interface{}, G int) {
 // ---------------------------------------------------------------------------------------------
 // C12: extension scripts
 
-var extKinds = [][3]string{{"int32", "string", "msg"}, {"enum", "bytes", "sint64"}, {"bool", "double", "fixed64"}, {"int64", "float", "uint64"}, {"sint32", "fixed32", "msg"}}
+var extKinds = [][3]string{{"int32", "string", "msg"}, {"enum", "bytes", "sint64"}, {"bool", "double", "fixed64"}, {"int64", "float", "uint64"}, {"sint32", "fixed32", "msg"},
+	{"int32@d", "string@d", "enum"}}
 
 var extNumber = map[string]int{"int32": 100, "int64": 101, "uint64": 102, "sint32": 103, "sint64": 104, "fixed32": 105, "fixed64": 106, "bool": 107,
 	"string": 108, "bytes": 109, "double": 110, "float": 111, "uint32": 112, "sfixed32": 113, "sfixed64": 114, "msg": 120, "enum": 121,
-	"int32@2": 150, "string@2": 151, "int64@f": 160, "msg@f": 161, "int32@n": 170}
+	"int32@2": 150, "string@2": 151, "int64@f": 160, "msg@f": 161, "int32@n": 170, "int32@d": 180, "string@d": 181}
 
 // extGoValue builds the Go value SetExtension expects for (kind, value id) on the given flavour.
 func (d *Driver) extGoValue(ti TypeInfo, ext interface{}, kind string, id int) interface{} {
@@ -906,7 +908,7 @@ func fieldNumbersIn(b []byte) map[int]bool {
 	return out
 }
 
-var reScript = regexp.MustCompile(`<<"(set|clear|clearall)", (\d+), (\d+)>>`)
+var reScript = regexp.MustCompile(`<<"(set|clear|clearall|arrive|getlate|setlate|clearlate)", (\d+), (\d+)>>`)
 
 // FamExt replays the operation scripts TLC emitted (MCExtensions) on extendable messages of every flavour and slot mapping.
 func (d *Driver) FamExt(scriptFile string, maxScripts int) {
@@ -943,18 +945,69 @@ func (d *Driver) FamExt(scriptFile string, maxScripts int) {
 		if maxScripts > 0 && si >= maxScripts {
 			break
 		}
+		usesLate := false
+		for _, o := range sc {
+			usesLate = usesLate || strings.HasSuffix(o.kind, "late") || o.kind == "arrive"
+		}
 		for _, ti := range exts {
+			if usesLate && ti.Flavour == "gv2" {
+				continue // late binding is a feature of the v1-style APIs (Extensions.tla)
+			}
 			mapping := extKinds[(si+n)%len(extKinds)]
 			n++
 			if si%200 == 0 {
 				d.W.NextGroup()
 			}
 			m := ti.New()
+			var late interface{}
+			if ti.Flavour != "gv2" {
+				late = lateDesc(ti)
+			}
 			d.emitD(&DEv{C: "extnew", Fl: specFlavour(ti.Flavour), Key: ti.Key, Mapping: strings.Join(mapping[:], ",")})
 			for _, o := range sc {
 				e := &DEv{C: "extop", Op: []interface{}{o.kind, o.slot, o.val}, Fl: specFlavour(ti.Flavour), Key: ti.Key, Mapping: strings.Join(mapping[:], ",")}
+				lget, lgetsame := -1, 1
 				guard(&e.St, &e.Note, func() {
 					switch o.kind {
+					case "arrive":
+						// the message comes off the wire, decoded by its owning runtime, with field 199 = lateValue(id)
+						raw := protowire.AppendVarint(protowire.AppendTag([]byte{0x08, 0x07}, 199, protowire.VarintType), uint64(lateValue(o.val)))
+						if err := runtimeOf(ti.Flavour).unmarshal(raw, m); err != nil {
+							e.St = "harness"
+							e.Note = err.Error()
+						}
+					case "getlate":
+						lget = 0
+						// the owning runtime's own GetExtension on the same message, before or after csproto's (alternating: the first of
+						// the two calls is the one that meets the extension in encoded form)
+						var rgot interface{}
+						var rerr error
+						if si%2 == 1 {
+							rgot, rerr = rtGet(ti.Flavour, m, late)
+						}
+						got, gerr := csproto.GetExtension(m, late)
+						if si%2 == 0 {
+							rgot, rerr = rtGet(ti.Flavour, m, late)
+						}
+						lgetsame = b2i((gerr == nil) == (rerr == nil) && (gerr != nil || canon(ti.Flavour, got) == canon(ti.Flavour, rgot)))
+						if p, ok := got.(*int32); gerr == nil && ok && p != nil {
+							for id := 1; id <= 2; id++ {
+								if *p == lateValue(id) {
+									lget = id
+								}
+							}
+						}
+						if lget == 0 {
+							e.Note += fmt.Sprintf(" getlate: %T %v err=%v", got, got, gerr)
+						}
+					case "setlate":
+						v := lateValue(o.val)
+						if err := csproto.SetExtension(m, late, &v); err != nil {
+							e.St = "err"
+							e.Note = err.Error()
+						}
+					case "clearlate":
+						csproto.ClearExtension(m, late)
 					case "set":
 						x := ti.Exts[mapping[o.slot-1]]
 						if err := csproto.SetExtension(m, x, d.extGoValue(ti, x, mapping[o.slot-1], o.val)); err != nil {
@@ -971,6 +1024,10 @@ func (d *Driver) FamExt(scriptFile string, maxScripts int) {
 					e.St = "ok"
 				}
 				d.observeExt(ti, m, mapping, e)
+				e.Late = []int{-1, -1, -1, -1, lget, lgetsame}
+				if late != nil {
+					d.observeLate(ti, m, late, e)
+				}
 				d.emitD(e)
 			}
 		}
@@ -1060,6 +1117,94 @@ func (d *Driver) FamExt(scriptFile string, maxScripts int) {
 				calls := 0
 				rerr := csproto.RangeExtensions(v, func(interface{}, string, int32) error { calls++; return nil })
 				e.Errc = b2i(rerr != nil && calls == 0)
+			})
+			if e.St == "" {
+				e.St = "ok"
+			}
+			d.emitD(e)
+		}
+	}
+	// late-bound extensions (the v1-API workflow: decode first, present the descriptor later): the message was decoded by its owning
+	// runtime while the extension was not registered, so the field is still held in encoded form when the descriptor - hand-made,
+	// never registered - is used with it.  Each answer is compared with the owning runtime's own API on an identical second message.
+	for _, a := range exts {
+		if a.Set != "default" || a.Flavour == "gv2" {
+			continue
+		}
+		for _, op := range []string{"clearall", "clear", "get-clearall", "get-clear"} {
+			e := &DEv{C: "extlate", Fl: specFlavour(a.Flavour), Key: a.Key, Op: op}
+			guard(&e.St, &e.Note, func() {
+				late := lateDesc(a)
+				raw := []byte{0x08, 0x07, 0xb8, 0x0c, 0x2a} // field 1 = 7, field 199 (in the extension range, not declared) = 42
+				rt := runtimeOf(a.Flavour)
+				m, ref := a.New(), a.New()
+				if rt.unmarshal(raw, m) != nil || rt.unmarshal(raw, ref) != nil {
+					e.St = "harness"
+					return
+				}
+				e.Has = []int{b2i(csproto.HasExtension(m, late))}
+				e.Rthas = []int{b2i(rtHas(a.Flavour, ref, late))}
+				e.Getsame = []int{1}
+				// RangeExtensions visits it (field number 199) exactly when the owning runtime's own enumeration lists it
+				e.X1 = 1
+				func() {
+					defer func() {
+						if r := recover(); r != nil {
+							e.X1 = 0
+							e.Note += " range panic: " + fmt.Sprint(r)
+						}
+					}()
+					mine := false
+					rerr := csproto.RangeExtensions(m, func(_ interface{}, _ string, field int32) error {
+						mine = mine || field == 199
+						return nil
+					})
+					theirs := false
+					if a.Flavour == "gv1" {
+						ds, _ := protov1.ExtensionDescs(ref.(protov1.Message))
+						for _, x := range ds {
+							theirs = theirs || x.Field == 199
+						}
+					} else {
+						ds, _ := gogoproto.ExtensionDescs(ref.(gogoproto.Message))
+						for _, x := range ds {
+							theirs = theirs || x.Field == 199
+						}
+					}
+					if rerr != nil || mine != theirs {
+						e.X1 = 0
+						e.Note += fmt.Sprintf(" range: err=%v visited=%v runtime lists=%v", rerr, mine, theirs)
+					}
+				}()
+				if strings.HasPrefix(op, "get-") {
+					got, gerr := csproto.GetExtension(m, late)
+					rgot, rerr := rtGet(a.Flavour, ref, late)
+					e.Getsame[0] = b2i((gerr == nil) == (rerr == nil) && (gerr != nil || canon(a.Flavour, got) == canon(a.Flavour, rgot)))
+				}
+				if strings.HasSuffix(op, "clearall") {
+					csproto.ClearAllExtensions(m)
+					if a.Flavour == "gv1" {
+						protov1.ClearAllExtensions(ref.(protov1.Message))
+					} else {
+						gogoproto.ClearAllExtensions(ref.(gogoproto.Message))
+					}
+				} else {
+					csproto.ClearExtension(m, late)
+					if a.Flavour == "gv1" {
+						protov1.ClearExtension(ref.(protov1.Message), late.(*protov1.ExtensionDesc))
+					} else {
+						gogoproto.ClearExtension(ref.(gogoproto.Message), late.(*gogoproto.ExtensionDesc))
+					}
+				}
+				e.Has = append(e.Has, b2i(csproto.HasExtension(m, late)))
+				e.Rthas = append(e.Rthas, b2i(rtHas(a.Flavour, ref, late)))
+				out, err1 := csproto.Marshal(m)
+				rout, err2 := rt.marshal(ref)
+				if err1 != nil || err2 != nil {
+					e.Inb = []int{-1, -1}
+					return
+				}
+				e.Inb = []int{b2i(fieldNumbersIn(out)[199]), b2i(fieldNumbersIn(rout)[199])}
 			})
 			if e.St == "" {
 				e.St = "ok"
@@ -1358,10 +1503,47 @@ func (d *Driver) observeExt(ti TypeInfo, m interface{}, mapping [3]string, e *DE
 					return nil
 				}
 			}
+			if field == 199 {
+				return nil // the late-bound slot: observeLate
+			}
 			e.Rng = append(e.Rng, 99) // an extension outside the mapping
 			return nil
 		})
 	}()
+}
+
+func lateValue(id int) int32 {
+	if id == 1 {
+		return 42
+	}
+	return 7
+}
+
+// observeLate records what the message shows of the late-bound slot (field 199) WITHOUT decoding it: Has (csproto's and the owning
+// runtime's), presence in csproto.Marshal's bytes, and whether RangeExtensions visits it.
+func (d *Driver) observeLate(ti TypeInfo, m, late interface{}, e *DEv) {
+	defer func() {
+		if r := recover(); r != nil {
+			e.St = "panic"
+			e.Note += " late observation panic: " + fmt.Sprint(r)
+		}
+	}()
+	e.Late[0] = b2i(csproto.HasExtension(m, late))
+	e.Late[1] = b2i(rtHas(ti.Flavour, m, late))
+	func() {
+		defer func() { _ = recover() }() // (a marshal panic is already recorded by observeExt: inb = -1)
+		zeroSizeCache(m)
+		if out, err := csproto.Marshal(m); err == nil {
+			e.Late[2] = b2i(fieldNumbersIn(out)[199])
+		}
+	}()
+	e.Late[3] = 0
+	_ = csproto.RangeExtensions(m, func(_ interface{}, _ string, field int32) error {
+		if field == 199 {
+			e.Late[3] = 1
+		}
+		return nil
+	})
 }
 
 // ---------------------------------------------------------------------------------------------
@@ -1685,4 +1867,16 @@ func tr64(digits []int) uint64 {
 		v |= uint64(digits[i]) << (7 * uint(i))
 	}
 	return v
+}
+
+// lateDesc is a descriptor of an int32 extension (field 199) of the extendable message a, built by hand as old generated code does and
+// never registered with any runtime.
+func lateDesc(a TypeInfo) interface{} {
+	extended := reflect.Zero(reflect.TypeOf(a.New())).Interface()
+	if a.Flavour == "gv1" {
+		return &protov1.ExtensionDesc{ExtendedType: extended.(protov1.Message), ExtensionType: (*int32)(nil), Field: 199,
+			Name: "verif.p2ext.late_" + a.Set, Tag: "varint,199,opt,name=late"}
+	}
+	return &gogoproto.ExtensionDesc{ExtendedType: extended.(gogoproto.Message), ExtensionType: (*int32)(nil), Field: 199,
+		Name: "verif.p2ext.late", Tag: "varint,199,opt,name=late"}
 }
